@@ -35,7 +35,9 @@ THEOREMS = {
                             "holdz_fires", "holdz_resolves", "holdz_updated", "holdz_sticky", "holdz_unresolved", "holdz_pending"]],
     "C12": [T + n for n in ["log_of_close", "log_of_close_flat", "prePost_before_post", "commit_before_deferred", "commit_precedes_deferred", "deferred_own_transaction",
                             "deferred_fifo", "post_immediate_when_idle", "phases_match", "hold_commit_queue", "once_detach_queue", "send_clear_queue", "defer_queue",
-                            "public_post_opens_transaction"]],
+                            "public_post_opens_transaction"]]
+           + [S + n for n in ["runOne_sp", "closeTxn_first_state", "closeTxn_queue", "depth_first", "posted_send_own_transaction", "posted_send_sends_irrel",
+                              "runItems_samp_sp"]],
     "C13": [S + n for n in ["mapc_eq_hold_map_updates", "mapc_eq_hold_map_updates_fresh", "cell_next_value", "cell_has_value", "lift_inv_mapc", "lift_inv_lift2", "lift_inv_liftn", "lift_inv_switchc", "lift_inv_cloop",
                             "mapc_inv_step", "lift2_inv_step"]],
     "C14": [T + n for n in ["leave_inner", "quiescent_after_close", "nested_close_transparent", "close_idempotent", "close_done", "close_fresh", "nesting_balanced",
@@ -55,7 +57,7 @@ MODULES = {
     "C09": ["SodiumVerif.Props.C09", "SodiumVerif.Props.C09b", "SodiumVerif.Props.C06"],
     "C10": ["SodiumVerif.Props.C10"],
     "C11": ["SodiumVerif.Props.C11", "SodiumVerif.Props.C11b", "SodiumVerif.Props.C11c"],
-    "C12": ["SodiumVerif.Props.C12"],
+    "C12": ["SodiumVerif.Props.C12", "SodiumVerif.Props.C12c"],
     "C13": ["SodiumVerif.Props.C13", "SodiumVerif.Props.Expand"],
     "C14": ["SodiumVerif.Props.C14"],
     "C15": ["SodiumVerif.Props.C15", "SodiumVerif.Props.C02", "SodiumVerif.Props.C04"],
